@@ -48,6 +48,12 @@ CLAIMED["C18"] = {
     "technique": "property-based testing: random reductions vs NumPy reference, metamorphic over chunkings and tree fan-in",
 }
 
+CLAIMED["C19"] = {
+    "text": "Hypothesis-generated sliding windows (alone and under 12 reductions, every window size), map_overlap stencils with int/dict/asymmetric depths and all boundary kinds, bottleneck moving-window reductions, overlap/trim_overlap, diff, gradient and cumulative scans (sequential and blelloch) over chunkings with blocks smaller than the window/depth, compared with the NumPy definitions (np.pad-based block-loop reference for overlaps). " + EXPL,
+    "note": "Boundary kinds mapped to np.pad modes as the implementation documents; untrimmed overlaps only inspected when dask does not re-chunk first; map_overlap(trim=False) is a listed open finding (always raises) and excluded; explicit build-time rejections (depth larger than the array, chunks too small for gradient) are counted.",
+    "technique": "property-based testing: random windows/depths/chunkings vs NumPy reference definitions",
+}
+
 NOT_APPLICABLE = {
     "C22": "native Rust extension cannot be built offline (pyo3 0.29 and other crates are absent from the offline cargo registry; no prebuilt .so), so no native layer can be instantiated to generate inputs against; see DESIGN.md section 4 C22",
 }
